@@ -883,11 +883,105 @@ pub fn check_c12(c: &ContCase, acc: &mut Acc, record: bool) -> Verdict {
     }
 }
 
+/// several maps with text keys in ONE stream, their keys drawn from a few strings so that maps share keys, beside
+/// deduplicated strings or not: what a list of HashMaps wrote is read as a list of BTreeMaps or of pair lists, and
+/// the other way round (a container that keeps anything per stream shows here, not with a single map)
+#[derive(Debug, Clone, Serialize, Deserialize)]
+pub struct MapsCase {
+    pub maps: Vec<Vec<(String, u8)>>,
+    pub src: Cont,
+    pub dst: Cont,
+    /// deduplicated strings written before the maps (and read before them)
+    pub beside: Vec<String>,
+}
+
+fn maps_strategy() -> BoxedStrategy<MapsCase> {
+    let keys = vec!["", "k", "key", "x", "name", "\u{e9}t\u{e9}"];
+    let one = proptest::collection::vec((prop::sample::select(keys.clone()), any::<u8>()), 0..5).prop_map(|ps| {
+        // distinct keys within one map
+        let mut out: Vec<(String, u8)> = Vec::new();
+        for (k, v) in ps {
+            if !out.iter().any(|(x, _)| x == k) {
+                out.push((k.to_string(), v));
+            }
+        }
+        out
+    });
+    let kinds = vec![Cont::Vec, Cont::LinkedList, Cont::HashMap, Cont::BTreeMap];
+    (proptest::collection::vec(one, 1..5), prop::sample::select(kinds.clone()), prop::sample::select(kinds), proptest::collection::vec(prop::sample::select(keys), 0..4))
+        .prop_map(|(maps, src, dst, beside)| MapsCase { maps, src, dst, beside: beside.into_iter().map(|s| s.to_string()).collect() })
+        .boxed()
+}
+
+pub fn check_c12_maps(c: &MapsCase, acc: &mut Acc, record: bool) -> Verdict {
+    // at the REAL static types (the run-time bridge instantiates containers at its own element type, which hides
+    // whatever a codec does for particular key types)
+    use desert::DeduplicatedString as DS;
+    use std::collections::{BTreeMap, HashMap, LinkedList};
+    type P = (String, u8);
+    fn enc<M: desert::BinarySerializer>(beside: &[String], maps: Vec<M>) -> desert::Result<Vec<u8>> {
+        desert::serialize_to_byte_vec(&(beside.iter().map(|s| DS(s.clone())).collect::<Vec<DS>>(), maps))
+    }
+    fn dec<M: desert::BinaryDeserializer + IntoIterator<Item = P>>(bytes: &[u8]) -> desert::Result<(Vec<String>, Vec<Vec<P>>)> {
+        let (b, ms): (Vec<DS>, Vec<M>) = desert::deserialize(bytes)?;
+        Ok((b.into_iter().map(|d| d.0).collect(), ms.into_iter().map(|m| m.into_iter().collect()).collect()))
+    }
+    let name = |k: Cont| match k {
+        Cont::HashMap => "Vec<HashMap<String, u8>>",
+        Cont::BTreeMap => "Vec<BTreeMap<String, u8>>",
+        Cont::LinkedList => "Vec<LinkedList<(String, u8)>>",
+        _ => "Vec<Vec<(String, u8)>>",
+    };
+    if record {
+        let shared = c.maps.iter().enumerate().any(|(i, m)| c.maps[..i].iter().any(|o| o.iter().any(|(k, _)| m.iter().any(|(x, _)| x == k))));
+        acc.case("several text-keyed maps in one stream (static types)", hash_json(c), shared && c.src != c.dst);
+    }
+    let maps = c.maps.clone();
+    let bytes = crate::run::guarded(|| match c.src {
+        Cont::HashMap => enc(&c.beside, maps.iter().map(|m| m.iter().cloned().collect::<HashMap<String, u8>>()).collect()),
+        Cont::BTreeMap => enc(&c.beside, maps.iter().map(|m| m.iter().cloned().collect::<BTreeMap<String, u8>>()).collect()),
+        Cont::LinkedList => enc(&c.beside, maps.iter().map(|m| m.iter().cloned().collect::<LinkedList<P>>()).collect()),
+        _ => enc(&c.beside, maps.clone()),
+    });
+    let bytes = match bytes {
+        Ok(Ok(b)) => b,
+        other => return Verdict::Fail(format!("encoding {} failed: {other:?}", name(c.src))),
+    };
+    let back = crate::run::guarded(|| match c.dst {
+        Cont::HashMap => dec::<HashMap<String, u8>>(&bytes),
+        Cont::BTreeMap => dec::<BTreeMap<String, u8>>(&bytes),
+        Cont::LinkedList => dec::<LinkedList<P>>(&bytes),
+        _ => dec::<Vec<P>>(&bytes),
+    });
+    let sorted = |ms: &Vec<Vec<P>>| -> Vec<Vec<P>> {
+        ms.iter()
+            .map(|m| {
+                let mut m = m.clone();
+                m.sort();
+                m
+            })
+            .collect()
+    };
+    match back {
+        Ok(Ok((beside, got))) => {
+            if beside != c.beside || sorted(&got) != sorted(&c.maps) {
+                return Verdict::Fail(format!("(Vec<DeduplicatedString>, {}) read from the bytes of (.., {}) gives {:?} / {:?}, written were {:?} / {:?} (bytes {})", name(c.dst), name(c.src), beside, got, c.beside, c.maps, hex(&bytes)));
+            }
+            Verdict::Pass
+        }
+        other => Verdict::Fail(format!("(Vec<DeduplicatedString>, {}) could not read the bytes of (.., {}): {other:?} (bytes {})", name(c.dst), name(c.src), hex(&bytes))),
+    }
+}
+
 pub fn run_c12(cx: &Cx) -> PropResult {
     let per_shard = cx.n(100_000, 2_000_000);
     let acc = parallel(cx, &|shard, acc| {
         let strat = cont_case_strategy();
-        drive(crate::run::tag_seed(derive_seed(cx.seed, cx.prop, shard as u64, 0), 0), &strat, per_shard, acc, &|c: &ContCase| to_json(c), &mut |c, a, r| check_c12(c, a, r));
+        if drive(crate::run::tag_seed(derive_seed(cx.seed, cx.prop, shard as u64, 0), 0), &strat, per_shard, acc, &|c: &ContCase| to_json(c), &mut |c, a, r| check_c12(c, a, r)) {
+            return;
+        }
+        let strat = maps_strategy();
+        drive(crate::run::tag_seed(derive_seed(cx.seed, cx.prop, shard as u64, 4), 4), &strat, per_shard / 10, acc, &|c: &MapsCase| to_json(&json!({"Maps": c})), &mut |c, a, r| check_c12_maps(c, a, r));
     });
     PropResult::new(
         acc,
@@ -897,6 +991,10 @@ pub fn run_c12(cx: &Cx) -> PropResult {
 }
 
 pub fn replay_c12(case: &Value) -> Verdict {
+    if let Some(m) = case.get("Maps") {
+        let c: MapsCase = serde_json::from_value(m.clone()).expect("replay case");
+        return check_c12_maps(&c, &mut Acc::new(), false);
+    }
     let c: ContCase = serde_json::from_value(case.clone()).expect("replay case");
     check_c12(&c, &mut Acc::new(), false)
 }
